@@ -42,6 +42,7 @@ var c02Fixed = []string{
 	"package main\nimport \"fmt\"\nfunc main() {\n {\n  q := 5\n  fmt.Println(q)\n }\n try { fmt.Println(\"oos\", q) } catch (e) { fmt.Println(\"oos caught\", e) } /*OOS*/\n}\n",
 	"package main\nimport \"fmt\"\nfunc main() {\n try { zz = zz + 1 } catch (e) { fmt.Println(e) }\n try { zz++ } catch (e) { fmt.Println(e) }\n}\n",
 	"package main\nimport \"fmt\"\nfunc main() {\n b := int8(100)\n b = b + (1000 - 255) /*NCSTEP*/\n fmt.Println(b)\n for i := int8(0); i < 3; i++ { fmt.Println(i) }\n}\n",
+	"package main\nimport \"fmt\"\nfunc main() {\n x := 1\n y := 2.5\n x, y = 5, 6 /*PAR*/\n fmt.Println(x, y)\n}\n",
 	"package main\nimport \"fmt\"\nfunc mk() func() int { n := 0; return func() int { n = n + 1; return n } }\nfunc main() {\n c := mk()\n d := mk()\n fmt.Println(c(), c(), d(), c())\n}\n",
 }
 
@@ -85,7 +86,13 @@ func TestVerifC02Programs(t *testing.T) {
 	seen := map[string]bool{}
 
 	// one program in one mode across the in-process cross product
+	// shrink (optional) returns a smaller program for which `diverges` still holds
+	var shrink func(diverges func(src string) bool) string
+
 	runAll := func(id, src string, feats []string, mode int, testMode bool, cfgs []c02Cfg) {
+		minimise := shrink
+		shrink = nil
+
 		base := c02Run(c02Cfg{Mode: mode}, id, src, testMode)
 
 		if again := c02Run(c02Cfg{Mode: mode}, id, src, testMode); again != base {
@@ -127,6 +134,16 @@ func TestVerifC02Programs(t *testing.T) {
 				stats.Inc("unstable_skipped")
 
 				return
+			}
+
+			if minimise != nil {
+				small := minimise(func(s string) bool {
+					return c02Run(c02Cfg{Mode: mode}, id, s, testMode) != c02Run(c, id, s, testMode)
+				})
+
+				if b2, g2 := c02Run(c02Cfg{Mode: mode}, id, small, testMode), c02Run(c, id, small, testMode); b2 != g2 {
+					src, base, got = small, b2, g2
+				}
 			}
 
 			class := c02Classify(id, src, mode, testMode, base)
@@ -183,12 +200,56 @@ func TestVerifC02Programs(t *testing.T) {
 		}
 	}
 
+	// the store boundary: per numeric kind, every way a register-eligible function owns a variable x every
+	// constant / typed value (fixed corpus), then random probe sequences
+	probes := func(id string, ps []c02Probe, feats []string, cfgs func(mode int) []c02Cfg) {
+		for _, m := range modes {
+			shrink = func(diverges func(string) bool) string { return c02ProbeSource(c02ShrinkProbes(ps, diverges)) }
+			runAll(id, c02ProbeSource(ps), feats, m, false, cfgs(m))
+		}
+	}
+
+	// quick tier: a rotating share of the values, under every single-dimension flip of registers and
+	// optimizer level, everything-on and one random point (the default allocation size only)
+	matrixCfgs := func(m int) []c02Cfg {
+		if verifh.Thorough() {
+			return sample(m, 4)
+		}
+
+		all := c02Configs(m)
+
+		return []c02Cfg{{Regs: true, Mode: m}, {Opt: 2, Regs: true, Fold: true, GCache: true, Mode: m}, {Opt: 3, Mode: m}, all[r.Intn(len(all))]}
+	}
+
+	mr := verifh.Rand(206)
+
+	if verifh.Thorough() || os.Getenv("VERIF_C02_SAMPLE") != "1" {
+		for _, kind := range c02NumKinds {
+			probes("probe-"+kind, c02ProbeMatrix(kind, verifh.Thorough(), mr), []string{"probe-matrix"}, matrixCfgs)
+			stats.Inc("feat.probe-matrix")
+		}
+	}
+
+	pr := verifh.Rand(204)
+
+	for i := 0; i < verifh.N(10, 150); i++ {
+		probes(fmt.Sprintf("probe%d", i), c02RandomProbes(pr), []string{"probe-random"}, func(m int) []c02Cfg {
+			if verifh.Thorough() {
+				return full(m)
+			}
+
+			return sample(m, 2)
+		})
+		stats.Inc("feat.probe-random")
+	}
+
 	// generated programs: the full in-process cross product in every mode
 	n := verifh.N(14, 160)
 	gr := verifh.Rand(201)
+	gr2 := verifh.Rand(205)
 
 	for i := 0; i < n; i++ {
-		src, feats := c02Program(gr)
+		src, feats := c02Program(gr, gr2)
 		sort.Strings(feats)
 
 		for _, f := range feats {
